@@ -370,6 +370,7 @@ class Parser:
         "_chunk_index",
         "_tokens_size",
         "_node_count",
+        "_connect_by_depth",
     )
 
     FUNCTIONS: t.ClassVar[dict[str, t.Callable]] = {
@@ -1972,6 +1973,7 @@ class Parser:
         self._chunks: list[list[Token]] = []
         self._chunk_index: i64 = 0
         self._node_count: int = 0
+        self._connect_by_depth: int = 0
 
     def reset(self) -> None:
         self.sql = ""
@@ -1987,6 +1989,7 @@ class Parser:
         self._chunks = []
         self._chunk_index = 0
         self._node_count = 0
+        self._connect_by_depth = 0
 
     def _advance(self, times: i64 = 1) -> None:
         index = self._index + times
@@ -5625,13 +5628,17 @@ class Parser:
             return None
         return self.expression(exp.Qualify(this=self._parse_disjunction()))
 
+    def _parse_prior(self) -> exp.Prior:
+        return self.expression(exp.Prior(this=self._parse_bitwise()))
+
     def _parse_connect_with_prior(self) -> exp.Expr | None:
-        self.NO_PAREN_FUNCTION_PARSERS["PRIOR"] = lambda self: self.expression(
-            exp.Prior(this=self._parse_bitwise())
-        )
-        connect = self._parse_disjunction()
-        self.NO_PAREN_FUNCTION_PARSERS.pop("PRIOR")
-        return connect
+        # PRIOR is only an operator inside CONNECT BY. This is tracked per parser instance,
+        # because NO_PAREN_FUNCTION_PARSERS is shared by every parser of this class.
+        self._connect_by_depth += 1
+        try:
+            return self._parse_disjunction()
+        finally:
+            self._connect_by_depth -= 1
 
     def _parse_connect(self, skip_start_token: bool = False) -> exp.Connect | None:
         if skip_start_token:
@@ -6858,9 +6865,13 @@ class Parser:
             token = self._prev
             comments = self._prev_comments
 
-            if parts is None and token.text.upper() in self.NO_PAREN_FUNCTION_PARSERS:
-                self._retreat(index)
-                return None
+            if parts is None:
+                upper = token.text.upper()
+                if upper in self.NO_PAREN_FUNCTION_PARSERS or (
+                    self._connect_by_depth and upper == "PRIOR"
+                ):
+                    self._retreat(index)
+                    return None
 
             has_dot = self._match(TokenType.DOT)
             curr_tt = self._curr.token_type
@@ -7235,6 +7246,8 @@ class Parser:
 
         after_dot = prev.token_type == TokenType.DOT
         parser = self.NO_PAREN_FUNCTION_PARSERS.get(upper)
+        if parser is None and self._connect_by_depth and upper == "PRIOR":
+            parser = self.__class__._parse_prior
         if (
             optional_parens
             and parser
